@@ -1,34 +1,531 @@
-(* Lemmas for property C02 (model: TagParse/Resolve.v on top of TagParse/Model.v). *)
-From DJC Require Import Lib.Base TagParse.Model TagParse.Proofs TagParse.Resolve.
-Import Coq.Strings.String.StringSyntax.
-Delimit Scope string_scope with string.
+(* Lemmas for property C02 (model: TagParse/Resolve.v on top of TagParse/Model.v; specification: TagParse/Spec.v).
+   ParseProofs.v shows that parse_tag turns a printed argument list into the AST of the argument list; this file
+   shows that resolving that AST gives the denotation, and puts the two together. *)
+From DJC Require Import Lib.Base TagParse.Model TagParse.Proofs TagParse.Resolve TagParse.Spec TagParse.ScanLemmas
+     TagParse.ParseProofs.
 
 (* ================================================================================================ *)
-(* A. documented-invalid spreads are refused whatever follows them                                   *)
+(* A. the text handed to the leaf evaluator                                                          *)
 (* ================================================================================================ *)
-Local Arguments take_n : simpl nomatch.
-Local Arguments take_until : simpl nomatch.
-Local Arguments take_while : simpl nomatch.
-Local Arguments skip_ws : simpl nomatch.
-Local Arguments add_token : simpl nomatch.
-Local Arguments is_next : simpl nomatch.
-Local Arguments at_end : simpl nomatch.
+Lemma serialize_atom a sp f : (atom_tr a = true -> sp = None) ->
+  serialize_part (part_of_atom a sp f)
+  = match f with Some c => [c] | None => [] end ++ spread_prefix sp ++ canon_atom a.
+Proof.
+  intro Ht. destruct a as [t|q b|q b]; unfold serialize_part; cbn [part_of_atom p_value p_quoted p_transl p_spread p_filter quote_wrap canon_atom].
+  - destruct sp, f; reflexivity.
+  - unfold quoted. destruct sp, f; reflexivity.
+  - rewrite (Ht eq_refl). unfold quoted. destruct f; cbn [app spread_prefix]; rewrite <- ?app_assoc; reflexivity.
+Qed.
 
-(* symbolic execution of the scanner on a concrete prefix followed by an arbitrary tail: comparisons between
-   concrete characters are computed, comparisons with a character of the tail are case-split *)
-Ltac eqb_step :=
-  match goal with
-  | |- context [N.eqb ?a ?b] =>
-      let r := eval vm_compute in (N.eqb a b) in
-      match r with
-      | true => change (N.eqb a b) with true
-      | false => change (N.eqb a b) with false
+Lemma serialize_filters fs : concat (map serialize_part (flat_map parts_of_filt fs)) = concat (map canon_filt fs).
+Proof.
+  induction fs as [|[n a] fs IH]; [reflexivity|].
+  cbn [flat_map]. rewrite map_app, concat_app, IH. cbn [map concat]. f_equal.
+  unfold parts_of_filt, canon_filt. cbn [fst snd]. destruct a as [x|]; cbn [map concat].
+  - rewrite (serialize_atom x None (Some 58%N)) by reflexivity. unfold serialize_part. cbn. rewrite app_nil_r. reflexivity.
+  - unfold serialize_part. cbn. rewrite app_nil_r. reflexivity.
+Qed.
+
+Lemma serialize_leaf sp l : (sp <> None -> spreadable l = true) ->
+  serialize_value (parts_of_leaf sp l) = spread_prefix sp ++ canon_leaf l.
+Proof.
+  intro Hs. unfold serialize_value, parts_of_leaf, canon_leaf. cbn [map concat].
+  rewrite serialize_filters. rewrite serialize_atom.
+  - cbn [app]. rewrite <- app_assoc. reflexivity.
+  - intro Ht. destruct sp; [|reflexivity]. specialize (Hs ltac:(discriminate)). unfold spreadable in Hs.
+    destruct (lf_head l); discriminate.
+Qed.
+
+(* leaf_text_canonical: whatever the layout was, the evaluator receives the canonical text of the leaf - the
+   expression as written inside {{ }}, no white space around | and :, no spread operator *)
+Lemma leaf_text_canon sp l : (sp <> None -> spreadable l = true) -> leaf_text (parts_of_leaf sp l) = canon_leaf l.
+Proof.
+  intro Hs. unfold leaf_text. rewrite (serialize_leaf sp l Hs). unfold parts_of_leaf. rewrite p_spread_atom.
+  destruct sp as [[| |]|]; reflexivity.
+Qed.
+
+(* ================================================================================================ *)
+(* B. resolving the AST of a value = its denotation                                                  *)
+(* ================================================================================================ *)
+Section Loops.
+Variable ev : str -> rres value.
+Fixpoint rlist (l : list node) (acc : list value) : rres value :=
+  match l with
+  | [] => ROk (VList acc)
+  | x :: r =>
+    match resolve_node ev x with
+    | RErr k => RErr k
+    | ROk v =>
+      match x with
+      | NStruct xty (Some _) _ _ =>
+        if negb (stype_eqb xty TList) then RErr ETemplateSyntax
+        else match iter_value v with Some vs => rlist r (acc ++ vs) | None => RErr EType end
+      | NVal parts =>
+        if value_is_spread parts
+        then match iter_value v with Some vs => rlist r (acc ++ vs) | None => RErr EType end
+        else rlist r (acc ++ [v])
+      | _ => rlist r (acc ++ [v])
       end
-  | |- context [N.eqb ?a ?b] => destruct (N.eqb a b) eqn:?
+    end
   end.
-Ltac crunch :=
-  repeat (cbn -[N.eqb];
-          first [ match goal with |- Err _ = Err _ => reflexivity end
-                | match goal with |- context [match ?t with [] => _ | _ :: _ => _ end] => is_var t; destruct t end
-                | eqb_step ]).
+Fixpoint rdict (l : list node) (acc : list (value * value)) (pending : option value) : rres value :=
+  match l with
+  | [] => ROk (VDict acc)
+  | x :: r =>
+    match resolve_node ev x with
+    | RErr k => RErr k
+    | ROk v =>
+      let is_sp := match x with NStruct _ sp _ _ => is_some sp | NVal parts => value_is_spread parts end in
+      if is_sp then
+        if is_some pending then RErr ETemplateSyntax
+        else match v with VDict d => rdict r (dict_update acc d) pending | _ => RErr EType end
+      else
+        match pending with
+        | None => rdict r acc (Some v)
+        | Some k => if hashable k then rdict r (dict_set k v acc) None else RErr EType
+        end
+    end
+  end.
+Lemma resolve_list sp ents m : resolve_node ev (NStruct TList sp ents m) = rlist ents [].
+Proof. reflexivity. Qed.
+Lemma resolve_dict sp ents m : resolve_node ev (NStruct TDict sp ents m) = rdict ents [] None.
+Proof. reflexivity. Qed.
 
+Fixpoint dlist (items : list (bool * sval)) (acc : list value) : rres value :=
+  match items with
+  | [] => ROk (VList acc)
+  | (sp, x) :: r =>
+    match den_val ev x with
+    | RErr e => RErr e
+    | ROk d =>
+      if sp then match iter_value d with Some ds => dlist r (acc ++ ds) | None => RErr EType end
+      else dlist r (acc ++ [d])
+    end
+  end.
+Fixpoint ddict (ents : list (option leaf * sval)) (acc : list (value * value)) : rres value :=
+  match ents with
+  | [] => ROk (VDict acc)
+  | (Some kl, x) :: r =>
+    match ev (canon_leaf kl) with
+    | RErr e => RErr e
+    | ROk kv =>
+      match den_val ev x with
+      | RErr e => RErr e
+      | ROk d => if hashable kv then ddict r (dict_set kv d acc) else RErr EType
+      end
+    end
+  | (None, x) :: r =>
+    match den_val ev x with
+    | RErr e => RErr e
+    | ROk (VDict d) => ddict r (dict_update acc d)
+    | ROk _ => RErr EType
+    end
+  end.
+Lemma den_list items : den_val ev (SList items) = dlist items [].
+Proof. reflexivity. Qed.
+Lemma den_dict ents : den_val ev (SDict ents) = ddict ents [].
+Proof. reflexivity. Qed.
+End Loops.
+
+Definition sp_ok (sp : option spread) (v : sval) : Prop :=
+  sp <> None -> match v with SLeaf l => spreadable l = true | _ => True end.
+
+Lemma resolve_leaf ev sp l : (sp <> None -> spreadable l = true) ->
+  resolve_node ev (NVal (parts_of_leaf sp l)) = ev (canon_leaf l).
+Proof. intro H. cbn [resolve_node]. unfold eval_parts. rewrite leaf_text_canon by exact H. reflexivity. Qed.
+
+Theorem resolve_ast ev : forall n v, vsize v <= n -> val_ok v = true -> forall sp, sp_ok sp v ->
+  resolve_node ev (ast_val sp v) = den_val ev v.
+Proof.
+  induction n as [|n IH]; intros v Hn Hok sp Hsp.
+  { destruct v; cbn in Hn; lia. }
+  destruct v as [l|items|ents].
+  - cbn [ast_val den_val]. apply resolve_leaf. exact Hsp.
+  - cbn [ast_val]. rewrite resolve_list, den_list. cbn [vsize] in Hn. cbn [val_ok] in Hok.
+    assert (Hgo : forall its acc,
+               (forall p, In p its -> vsize (snd p) <= n) -> forallb litem_ok its = true ->
+               rlist ev (map litem_ast its) acc = dlist ev its acc).
+    { induction its as [|[s x] its IHi]; intros acc Hsz Hk; [reflexivity|].
+      cbn [forallb] in Hk. apply andb_true_iff in Hk as [Hx Hk]. unfold litem_ok in Hx. cbn [fst snd] in Hx.
+      apply andb_true_iff in Hx as [Hvx Hshape].
+      cbn [map rlist dlist]. unfold litem_ast at 1 2. cbn [fst snd].
+      rewrite (IH x (Hsz (s, x) (or_introl eq_refl)) Hvx).
+      2:{ intro Hne. destruct s; [|congruence]. destruct x; auto. }
+      destruct (den_val ev x) as [d|e]; [|reflexivity].
+      specialize (IHi) as IHi'.
+      destruct s.
+      + destruct x as [l|xi|xe]; [| |discriminate].
+        * cbn [ast_val value_is_spread parts_of_leaf]. rewrite p_spread_atom. cbn [is_some].
+          destruct (iter_value d); [|reflexivity]. apply IHi; [intros p Hp; apply Hsz; right; exact Hp | exact Hk].
+        * cbn [ast_val stype_eqb negb]. destruct (iter_value d); [|reflexivity].
+          apply IHi; [intros p Hp; apply Hsz; right; exact Hp | exact Hk].
+      + destruct x as [l|xi|xe]; cbn [ast_val value_is_spread parts_of_leaf]; rewrite ?p_spread_atom; cbn [is_some];
+          (apply IHi; [intros p Hp; apply Hsz; right; exact Hp | exact Hk]). }
+    apply Hgo; [|exact Hok].
+    intros p Hp. pose proof (fold_sum_in (fun p => vsize (snd p)) items p Hp). cbn beta in *. lia.
+  - cbn [ast_val]. rewrite resolve_dict, den_dict. cbn [vsize] in Hn. cbn [val_ok] in Hok.
+    assert (Hgo : forall es acc,
+               (forall p, In p es -> vsize (snd p) <= n) -> forallb dent_ok es = true ->
+               rdict ev (flat_map dent_ast es) acc None = ddict ev es acc).
+    { induction es as [|[k x] es IHe]; intros acc Hsz Hk; [reflexivity|].
+      cbn [forallb] in Hk. apply andb_true_iff in Hk as [Hx Hk]. unfold dent_ok in Hx. cbn [fst snd] in Hx.
+      apply andb_true_iff in Hx as [Hvx Hshape].
+      cbn [flat_map]. unfold dent_ast at 1. cbn [fst snd].
+      destruct k as [kl|].
+      + apply andb_true_iff in Hshape as [Hkl _].
+        cbn [app rdict ddict]. rewrite (resolve_leaf ev None kl) by congruence.
+        destruct (ev (canon_leaf kl)) as [kv|e]; [|reflexivity].
+        cbn [value_is_spread parts_of_leaf]. rewrite p_spread_atom. cbn [is_some].
+        rewrite (IH x (Hsz (Some kl, x) (or_introl eq_refl)) Hvx None) by (intro; congruence).
+        destruct (den_val ev x) as [d|e]; [|reflexivity].
+        assert (Hns : match ast_val None x with NStruct _ sp _ _ => is_some sp | NVal parts => value_is_spread parts end = false).
+        { destruct x as [l| |]; try reflexivity. cbn [ast_val value_is_spread parts_of_leaf]. rewrite p_spread_atom. reflexivity. }
+        rewrite Hns. destruct (hashable kv); [|reflexivity].
+        apply IHe; [intros p Hp; apply Hsz; right; exact Hp | exact Hk].
+      + cbn [app rdict ddict].
+        rewrite (IH x (Hsz (None, x) (or_introl eq_refl)) Hvx (Some SpStar2)).
+        2:{ intros _. destruct x as [l| |]; auto. apply andb_true_iff in Hshape as [Hs _]. exact Hs. }
+        destruct (den_val ev x) as [d|e]; [|reflexivity].
+        assert (Hns : match ast_val (Some SpStar2) x with NStruct _ sp _ _ => is_some sp | NVal parts => value_is_spread parts end = true).
+        { destruct x as [l| |]; try reflexivity. cbn [ast_val value_is_spread parts_of_leaf]. rewrite p_spread_atom. reflexivity. }
+        rewrite Hns. cbn [is_some]. destruct d; try reflexivity.
+        apply IHe; [intros p Hp; apply Hsz; right; exact Hp | exact Hk]. }
+    apply Hgo; [|exact Hok].
+    intros p Hp. pose proof (fold_sum_in (fun p => vsize (snd p)) ents p Hp). cbn beta in *. lia.
+Qed.
+
+Lemma resolve_top ev sp v : val_ok v = true -> sp_ok sp v -> resolve_node ev (top_ast sp v) = den_val ev v.
+Proof.
+  intros Hok Hsp. destruct v as [l| |].
+  - cbn [top_ast resolve_node den_val]. unfold eval_parts. rewrite leaf_text_canon by exact Hsp. reflexivity.
+  - apply (resolve_ast ev (vsize (SList items))); auto.
+  - apply (resolve_ast ev (vsize (SDict ents))); auto.
+Qed.
+
+(* ================================================================================================ *)
+(* C. serialising the AST (what the flag test and the self-closing test look at)                     *)
+(* ================================================================================================ *)
+Section Ser.
+Variable d : nat.
+Fixpoint ser_all (l : list node) : res (list str) :=
+  match l with
+  | [] => Ok []
+  | e :: r => match serialize_node d e with
+              | Ok s => match ser_all r with Ok ss => Ok (s :: ss) | Err k => Err k | OutOfFuel => OutOfFuel end
+              | Err k => Err k
+              | OutOfFuel => OutOfFuel
+              end
+  end.
+Lemma ser_list sp ents m :
+  serialize_node (S d) (NStruct TList sp ents m)
+  = match ser_all ents with
+    | Ok ss => Ok (spread_prefix sp ++ [91%N] ++ join [44; 32]%N ss ++ [93%N])
+    | Err k => Err k
+    | OutOfFuel => OutOfFuel
+    end.
+Proof. reflexivity. Qed.
+Lemma ser_dict sp ents m :
+  serialize_node (S d) (NStruct TDict sp ents m)
+  = match ser_all ents with
+    | Ok ss => match dict_pairs (combine ents ss) None with
+               | Ok ps => Ok (spread_prefix sp ++ [123%N] ++ join [44; 32]%N ps ++ [125%N])
+               | Err k => Err k
+               | OutOfFuel => OutOfFuel
+               end
+    | Err k => Err k
+    | OutOfFuel => OutOfFuel
+    end.
+Proof. reflexivity. Qed.
+
+Lemma ser_all_ok : forall l, Forall (fun e => exists s, serialize_node d e = Ok s) l ->
+  exists ss, ser_all l = Ok ss /\ length ss = length l.
+Proof.
+  induction l as [|e l IH]; intro H; [exists []; auto|].
+  inversion H as [|? ? [s Hs] Hl]; subst. destruct (IH Hl) as (ss & E & Hlen).
+  exists (s :: ss). cbn [ser_all]. rewrite Hs, E. split; [reflexivity | cbn; lia].
+Qed.
+End Ser.
+
+Lemma dict_pairs_ok : forall es ss, length ss = length (flat_map dent_ast es) ->
+  exists ps, dict_pairs (combine (flat_map dent_ast es) ss) None = Ok ps.
+Proof.
+  induction es as [|[k x] es IH]; intros ss Hl; [exists []; reflexivity|].
+  cbn [flat_map] in *. unfold dent_ast at 1 in Hl. unfold dent_ast at 1. cbn [fst snd] in *. destruct k as [kl|].
+  - cbn [app length] in Hl. destruct ss as [|s1 [|s2 ss]]; try discriminate. cbn [app combine dict_pairs].
+    cbn [entry_is_spread parts_of_leaf]. rewrite p_spread_atom. cbn [is_some]. rewrite ast_not_spread.
+    destruct (IH ss ltac:(cbn [length] in Hl; lia)) as (ps & E). rewrite E. eexists; reflexivity.
+  - cbn [app length] in Hl. destruct ss as [|s1 ss]; try discriminate. cbn [app combine dict_pairs].
+    rewrite ast_is_spread. cbn [is_some].
+    destruct (IH ss ltac:(cbn [length] in Hl; lia)) as (ps & E). rewrite E. eexists; reflexivity.
+Qed.
+
+Lemma ser_val : forall n v, vsize v <= n -> val_ok v = true -> forall sp d, vdepth v <= d ->
+  exists s, serialize_node d (ast_val sp v) = Ok s /\
+    match v with
+    | SLeaf l => s = serialize_value (parts_of_leaf sp l)
+    | SList _ => exists s', s = spread_prefix sp ++ 91%N :: s'
+    | SDict _ => exists s', s = spread_prefix sp ++ 123%N :: s'
+    end.
+Proof.
+  induction n as [|n IH]; intros v Hn Hok sp d Hd.
+  { destruct v; cbn in Hn; lia. }
+  destruct v as [l|items|ents].
+  - eexists. split; [destruct d; reflexivity | reflexivity].
+  - cbn [vdepth] in Hd. destruct d as [|d]; [lia|]. cbn [ast_val]. rewrite ser_list.
+    change (fun p : bool * sval => ast_val (if fst p then Some SpStar else None) (snd p)) with litem_ast.
+    cbn [vsize] in Hn. cbn [val_ok] in Hok.
+    destruct (ser_all_ok d (map litem_ast items)) as (ss & E & _).
+    { apply Forall_forall. intros e He. apply in_map_iff in He as (p & <- & Hp).
+      pose proof (fold_sum_in (fun p => vsize (snd p)) items p Hp). pose proof (fold_max_in (fun p => vdepth (snd p)) items p Hp).
+      cbn beta in *. rewrite forallb_forall in Hok. specialize (Hok p Hp). apply andb_true_iff in Hok as [Hv _].
+      destruct (IH (snd p) ltac:(lia) Hv (if fst p then Some SpStar else None) d ltac:(lia)) as (s & Hs & _).
+      exists s. exact Hs. }
+    rewrite E. eexists. split; [reflexivity|]. eexists. reflexivity.
+  - cbn [vdepth] in Hd. destruct d as [|d]; [lia|]. cbn [ast_val]. rewrite ser_dict.
+    match goal with |- context [flat_map ?f ents] => change f with dent_ast end.
+    cbn [vsize] in Hn. cbn [val_ok] in Hok.
+    destruct (ser_all_ok d (flat_map dent_ast ents)) as (ss & E & Hlen).
+    { apply Forall_forall. intros e He. apply in_flat_map in He as (p & Hp & He).
+      pose proof (fold_sum_in (fun p => vsize (snd p)) ents p Hp). pose proof (fold_max_in (fun p => vdepth (snd p)) ents p Hp).
+      cbn beta in *. rewrite forallb_forall in Hok. specialize (Hok p Hp). apply andb_true_iff in Hok as [Hv _].
+      unfold dent_ast in He. destruct (fst p) as [kl|].
+      - destruct He as [<-|[<-|[]]].
+        + eexists. destruct d; reflexivity.
+        + destruct (IH (snd p) ltac:(lia) Hv None d ltac:(lia)) as (s & Hs & _). exists s. exact Hs.
+      - destruct He as [<-|[]].
+        destruct (IH (snd p) ltac:(lia) Hv (Some SpStar2) d ltac:(lia)) as (s & Hs & _). exists s. exact Hs. }
+    rewrite E. destruct (dict_pairs_ok ents ss Hlen) as (ps & Ep). rewrite Ep.
+    eexists. split; [reflexivity|]. eexists. reflexivity.
+Qed.
+
+(* serialisation of a top-level attribute value *)
+Lemma ser_top sp v : val_ok v = true -> vdepth v <= 100 -> sp_ok sp v ->
+  exists s, serialize_node 1000 (top_ast sp v) = Ok s /\
+    match v with
+    | SLeaf l => s = spread_prefix sp ++ canon_leaf l
+    | SList _ => exists s', s = spread_prefix sp ++ 91%N :: s'
+    | SDict _ => exists s', s = spread_prefix sp ++ 123%N :: s'
+    end.
+Proof.
+  intros Hok Hd Hsp. destruct v as [l|items|ents].
+  - eexists. split; [reflexivity|]. apply serialize_leaf. exact Hsp.
+  - destruct (ser_val (vsize (SList items)) (SList items) (le_n _) Hok sp 1000 ltac:(lia)) as (s & Hs & Hc).
+    exists s. split; [exact Hs | exact Hc].
+  - destruct (ser_val (vsize (SDict ents)) (SDict ents) (le_n _) Hok sp 1000 ltac:(lia)) as (s & Hs & Hc).
+    exists s. split; [exact Hs | exact Hc].
+Qed.
+
+Lemma not_allowed_by_head allowed x s : forallb tok_ok allowed = true ->
+  existsb (N.eqb x) (46%N :: 95%N :: WSCH ++ SPECIALS) = true -> str_in (x :: s) allowed = false.
+Proof.
+  intros Hal Hx. unfold str_in. destruct (existsb (str_eqb (x :: s)) allowed) eqn:E; [|reflexivity].
+  apply existsb_exists in E as [t [Ht E]]. apply str_eqb_eq in E. subst t.
+  rewrite forallb_forall in Hal. specialize (Hal _ Ht). destruct (tok_ok_parts _ Hal) as (x' & t' & E' & Hx' & _).
+  inversion E'; subst. congruence.
+Qed.
+
+Lemma canon_tok_leaf t : canon_leaf (tok_leaf t) = t.
+Proof. unfold canon_leaf, tok_leaf. cbn. apply app_nil_r. Qed.
+
+(* per argument: its serialisation exists; flags serialise to their name, other positional arguments to something
+   that is not a flag name; nothing but the slash serialises to "/" *)
+Lemma ser_item allowed it : forallb tok_ok allowed = true -> str_in [47%N] allowed = false -> item_ok allowed it = true ->
+  exists s, serialize_node 1000 (item_node it) = Ok s /\ s <> [47%N] /\
+    match it with
+    | IFlag f => s = f
+    | IKw _ _ => True
+    | _ => str_in s allowed = false
+    end.
+Proof.
+  intros Hal Hns Hok. destruct it as [v|k v|v|fl]; cbn [item_ok item_node] in *.
+  - apply andb_true_iff in Hok as [Hok Hfl]. apply andb_true_iff in Hok as [Hok Hsl]. apply andb_true_iff in Hok as [Hv Hd].
+    apply Nat.leb_le in Hd. destruct (ser_top None v Hv Hd ltac:(intro; congruence)) as (s & Hs & Hc).
+    exists s. split; [exact Hs|]. destruct v as [l|items|ents]; cbn [spread_prefix app] in Hc.
+    + subst s. cbn [not_slash] in Hsl. split; [|apply negb_true_iff in Hfl; exact Hfl].
+      intro E. rewrite E in Hsl. discriminate.
+    + destruct Hc as (s' & ->). split; [discriminate|]. apply not_allowed_by_head; [exact Hal | reflexivity].
+    + destruct Hc as (s' & ->). split; [discriminate|]. apply not_allowed_by_head; [exact Hal | reflexivity].
+  - apply andb_true_iff in Hok as [Hok Hsl]. apply andb_true_iff in Hok as [Hok Hd]. apply andb_true_iff in Hok as [_ Hv].
+    apply Nat.leb_le in Hd. destruct (ser_top None v Hv Hd ltac:(intro; congruence)) as (s & Hs & Hc).
+    exists s. split; [exact Hs|]. split; [|trivial]. destruct v as [l|items|ents]; cbn [spread_prefix app] in Hc.
+    + subst s. cbn [not_slash] in Hsl. intro E. rewrite E in Hsl. discriminate.
+    + destruct Hc as (s' & ->). discriminate.
+    + destruct Hc as (s' & ->). discriminate.
+  - apply andb_true_iff in Hok as [Hok Hspr]. apply andb_true_iff in Hok as [Hv Hd]. apply Nat.leb_le in Hd.
+    destruct (ser_top (Some SpDots) v Hv Hd) as (s & Hs & Hc).
+    { intros _. destruct v; auto. }
+    exists s. split; [exact Hs|].
+    assert (Hhead : exists s', s = 46%N :: s').
+    { destruct v; [subst s | destruct Hc as (s' & ->) | destruct Hc as (s' & ->)]; eexists; reflexivity. }
+    destruct Hhead as (s' & ->). split; [discriminate|]. apply not_allowed_by_head; [exact Hal | reflexivity].
+  - exists fl. split; [cbn; rewrite app_nil_r; reflexivity|]. split; [|reflexivity].
+    intros ->. congruence.
+Qed.
+
+(* ================================================================================================ *)
+(* D. flags, self-closing slash, parameters                                                          *)
+(* ================================================================================================ *)
+Lemma cons_inj {A} (x y : A) l l' : x :: l = y :: l' -> x = y /\ l = l'.
+Proof. intro H. inversion H. auto. Qed.
+
+Definition nonflag (it : item) : bool := match it with IFlag _ => false | _ => true end.
+
+Lemma str_eqb_sym a b : str_eqb a b = str_eqb b a.
+Proof.
+  destruct (str_eqb a b) eqn:E.
+  - apply str_eqb_eq in E. subst. symmetry. apply str_eqb_refl.
+  - destruct (str_eqb b a) eqn:E'; [|reflexivity]. apply str_eqb_eq in E'. subst. rewrite str_eqb_refl in E. discriminate.
+Qed.
+
+Lemma nodup_mid : forall l x r, nodup_str (l ++ x :: r) = true ->
+  str_in x l = false /\ nodup_str ((l ++ [x]) ++ r) = true.
+Proof.
+  induction l as [|y l IH]; intros x r H.
+  - split; [reflexivity | exact H].
+  - cbn [app nodup_str] in H. apply andb_true_iff in H as [Hy H]. destruct (IH x r H) as [H1 H2].
+    apply negb_true_iff in Hy. unfold str_in in Hy. rewrite existsb_app in Hy. apply orb_false_iff in Hy as [Hy1 Hy2].
+    cbn [existsb] in Hy2. apply orb_false_iff in Hy2 as [Hyx Hy2]. split.
+    + unfold str_in in *. cbn [existsb]. rewrite str_eqb_sym, Hyx. exact H1.
+    + cbn [app nodup_str]. rewrite H2, andb_true_r. apply negb_true_iff. unfold str_in.
+      rewrite !existsb_app. cbn [existsb]. rewrite Hy1, Hyx, Hy2. reflexivity.
+Qed.
+
+Lemma ser_omit_key_of a it s : kv a = item_kv it -> serialize_node 1000 (item_node it) = Ok s -> ser_omit_key a = Some s.
+Proof. unfold kv, item_kv. intros E Hs. inversion E as [[Ek Ev]]. unfold ser_omit_key. rewrite Ev, Hs. reflexivity. Qed.
+
+Lemma item_node_spread it : node_spread (item_node it) = match it with ISpread _ => Some SpDots | _ => None end.
+Proof. destruct it as [v|k v|v|f]; cbn [item_node]; try (destruct v; reflexivity). reflexivity. Qed.
+
+Lemma extract_flags_items allowed : forall items attrs found,
+  map kv attrs = map item_kv items -> forallb tok_ok allowed = true -> str_in [47%N] allowed = false ->
+  forallb (item_ok allowed) items = true -> nodup_str (found ++ flags_of items) = true ->
+  exists rem, extract_flags allowed attrs found = ROk (rem, found ++ flags_of items)
+              /\ map kv rem = map item_kv (filter nonflag items).
+Proof.
+  induction items as [|it items IH]; intros attrs found Hm Hal Hns Hok Hnd.
+  - destruct attrs; [|discriminate]. exists []. cbn [flags_of flat_map]. rewrite app_nil_r. auto.
+  - destruct attrs as [|a attrs]; [discriminate|]. cbn [map] in Hm. apply cons_inj in Hm as [Ha Hm'].
+    cbn [forallb] in Hok. apply andb_true_iff in Hok as [Hit Hok].
+    destruct (ser_item allowed it Hal Hns Hit) as (s & Hs & _ & Hcls).
+    cbn [extract_flags]. rewrite (ser_omit_key_of a it s Ha Hs).
+    assert (Hkey : a_key a = item_key it) by (unfold kv, item_kv in Ha; congruence).
+    assert (Hval : a_value a = item_node it) by (unfold kv, item_kv in Ha; congruence).
+    rewrite Hkey.
+    assert (Hkeep : flags_of (it :: items) = flags_of items ->
+              is_some (item_key it) || negb (str_in s allowed) = true -> nonflag it = true ->
+              exists rem, rbind (extract_flags allowed attrs found) (fun '(rem, fl) => ROk (a :: rem, fl))
+                          = ROk (rem, found ++ flags_of (it :: items))
+                          /\ map kv rem = map item_kv (filter nonflag (it :: items))).
+    { intros Hfl _ Hnf. rewrite Hfl in *. destruct (IH attrs found Hm' Hal Hns Hok Hnd) as (rem & E & Hk).
+      exists (a :: rem). rewrite E. cbn [rbind]. split; [reflexivity|]. cbn [filter]. rewrite Hnf. cbn [map]. rewrite Ha, Hk. reflexivity. }
+    destruct it as [v|k v|v|f].
+    + rewrite Hcls. cbn [item_key is_some negb orb]. apply Hkeep; [reflexivity | rewrite Hcls; reflexivity | reflexivity].
+    + cbn [item_key is_some orb]. apply Hkeep; reflexivity.
+    + rewrite Hcls. cbn [item_key is_some negb orb]. apply Hkeep; [reflexivity | rewrite Hcls; reflexivity | reflexivity].
+    + subst s. cbn [item_ok] in Hit. rewrite Hit. cbn [item_key is_some negb orb].
+      rewrite Hval, item_node_spread. cbn [is_some].
+      cbn [flags_of flat_map app] in Hnd |- *. destruct (nodup_mid found f _ Hnd) as [Hnf Hnd'].
+      rewrite Hnf. fold (flags_of items) in *.
+      destruct (IH attrs (found ++ [f]) Hm' Hal Hns Hok Hnd') as (rem & E & Hk).
+      exists rem. rewrite E. rewrite <- app_assoc. split; [reflexivity|]. cbn [filter nonflag]. exact Hk.
+Qed.
+
+Lemma not_slash_match (r : res str) (A : Type) (x y : A) : r <> Ok [47%N] ->
+  match r with Ok [47%N] => x | _ => y end = y.
+Proof.
+  intro H. destruct r as [s|k|]; try reflexivity.
+  destruct s as [|c s]; [reflexivity|].
+  destruct (N.eqb_spec c 47) as [->|Hc].
+  - destruct s as [|c' s']; [exfalso; apply H; reflexivity | reflexivity].
+  - destruct c as [|p]; [destruct s; reflexivity|].
+    assert (Hp : p <> 47%positive) by congruence.
+    do 6 (destruct p as [p|p|]; try (destruct s; reflexivity)); congruence.
+Qed.
+
+Lemma ser_tok_node t : serialize_node 1000 (tok_node t) = Ok t.
+Proof. cbn. rewrite app_nil_r. reflexivity. Qed.
+
+(* parse_template_tag on a printed argument list: the flags, the self-closing slash, the remaining attributes *)
+Theorem parse_template_tag_print allowed lay tag a : arglist_ok tag allowed a = true ->
+  exists rem, parse_template_tag tag allowed (print lay tag a) = ROk (rem, flags_of (al_items a), al_slash a)
+              /\ map kv rem = map item_kv (filter nonflag (al_items a)).
+Proof.
+  intro Hok. destruct (parse_tag_print allowed lay tag a Hok) as (attrs & Hp & Hkv).
+  unfold arglist_ok in Hok.
+  apply andb_true_iff in Hok as [Hok Hnd]. apply andb_true_iff in Hok as [Hok Hitems].
+  apply andb_true_iff in Hok as [Hok Hns]. apply andb_true_iff in Hok as [Htag Hal]. apply negb_true_iff in Hns.
+  unfold parse_template_tag. rewrite Hp.
+  destruct attrs as [|ta rest_attrs]; [discriminate|]. cbn [map] in Hkv. apply cons_inj in Hkv as [Hta Hrest].
+  assert (Etag : ser_omit_key ta = Some tag).
+  { unfold ser_omit_key. assert (Hv : a_value ta = tok_node tag) by (unfold kv in Hta; congruence).
+    rewrite Hv, ser_tok_node. reflexivity. }
+  rewrite Etag, str_eqb_refl. cbn [negb].
+  (* the slash *)
+  assert (Hsl : exists ritems, map kv ritems = map item_kv (al_items a) /\
+            (match rev rest_attrs with
+             | last :: before => match serialize_node 1000 (a_value last) with
+                                 | Ok [47%N] => (rev before, true)
+                                 | _ => (rest_attrs, false)
+                                 end
+             | [] => (rest_attrs, false)
+             end) = (ritems, al_slash a)).
+  { unfold items_with_slash in Hrest. destruct (al_slash a).
+    - rewrite map_app in Hrest. apply map_eq_app in Hrest as (ritems & sl & -> & Hri & Hsl).
+      destruct sl as [|sa [|? ?]]; try discriminate. cbn [map] in Hsl. apply cons_inj in Hsl as [Hsa _].
+      exists ritems. split; [exact Hri|]. rewrite rev_app_distr. cbn [rev app].
+      assert (Hv : a_value sa = item_node slash_item) by (unfold kv, item_kv in Hsa; congruence). rewrite Hv.
+      change (item_node slash_item) with (tok_node [47%N]). rewrite ser_tok_node. rewrite rev_involutive. reflexivity.
+    - rewrite app_nil_r in Hrest. exists rest_attrs. split; [exact Hrest|].
+      destruct (rev rest_attrs) as [|last before] eqn:Er; [reflexivity|].
+      (* the last attribute is the last argument, which does not serialise to a slash *)
+      assert (Hin : In last rest_attrs) by (apply in_rev; rewrite Er; left; reflexivity).
+      apply (in_map kv) in Hin. rewrite Hrest in Hin. apply in_map_iff in Hin as (it & Hit & Hin').
+      rewrite forallb_forall in Hitems. specialize (Hitems it Hin').
+      destruct (ser_item allowed it Hal Hns Hitems) as (s & Hs & Hne & _).
+      assert (Hv : a_value last = item_node it) by (unfold kv, item_kv in Hit; congruence). rewrite Hv.
+      apply not_slash_match. rewrite Hs. congruence. }
+  destruct Hsl as (ritems & Hri & ->).
+  destruct (extract_flags_items allowed (al_items a) ritems [] Hri Hal Hns Hitems Hnd) as (rem & E & Hk).
+  exists rem. rewrite E. cbn [rbind app]. split; [reflexivity | exact Hk].
+Qed.
+
+Lemma rbind_ret {A} (r : rres A) : rbind r (fun x => ROk x) = r.
+Proof. destruct r; reflexivity. Qed.
+
+Lemma resolve_items ev allowed : forall items rem,
+  map kv rem = map item_kv (filter nonflag items) -> forallb (item_ok allowed) items = true ->
+  resolve_params_go ev rem = den_items ev items.
+Proof.
+  induction items as [|it items IH]; intros rem Hm Hok.
+  - destruct rem; [reflexivity | discriminate].
+  - cbn [forallb] in Hok. apply andb_true_iff in Hok as [Hit Hok].
+    destruct it as [v|k v|v|f]; cbn [filter nonflag] in Hm.
+    4:{ cbn [den_items]. cbn [rbind app]. rewrite rbind_ret. apply IH; assumption. }
+    all: destruct rem as [|a rem]; [discriminate|]; cbn [map] in Hm; apply cons_inj in Hm as [Ha Hm'];
+      assert (Hk : a_key a = item_key _) by (unfold kv, item_kv in Ha; congruence);
+      assert (Hv : a_value a = item_node _) by (unfold kv, item_kv in Ha; congruence);
+      cbn [resolve_params_go den_items]; rewrite Hv, Hk, item_node_spread; cbn [item_node item_key is_some];
+      rewrite (IH rem Hm' Hok); cbn [item_ok] in Hit.
+    + apply andb_true_iff in Hit as [Hit _]. apply andb_true_iff in Hit as [Hit _]. apply andb_true_iff in Hit as [Hvok _].
+      rewrite (resolve_top ev None v Hvok) by (intro; congruence).
+      destruct (den_val ev v); reflexivity.
+    + apply andb_true_iff in Hit as [Hit _]. apply andb_true_iff in Hit as [Hit _]. apply andb_true_iff in Hit as [_ Hvok].
+      rewrite (resolve_top ev None v Hvok) by (intro; congruence).
+      destruct (den_val ev v); reflexivity.
+    + apply andb_true_iff in Hit as [Hit Hspr]. apply andb_true_iff in Hit as [Hvok _].
+      rewrite (resolve_top ev (Some SpDots) v Hvok) by (intros _; destruct v; auto).
+      destruct (den_val ev v) as [d|e]; [|reflexivity]. cbn [key_truthy rbind]. reflexivity.
+Qed.
+
+(* ================================================================================================ *)
+(* E. the main statement                                                                             *)
+(* ================================================================================================ *)
+Theorem run_tag_print_denote keywords tag allowed ev lay a : arglist_ok tag allowed a = true ->
+  run_tag keywords tag allowed ev (print lay tag a) = denote keywords ev a.
+Proof.
+  intro Hok. destruct (parse_template_tag_print allowed lay tag a Hok) as (rem & Hp & Hk).
+  unfold run_tag, denote. rewrite Hp. cbn [rbind].
+  assert (Hitems : forallb (item_ok allowed) (al_items a) = true).
+  { unfold arglist_ok in Hok. apply andb_true_iff in Hok as [Hok _]. apply andb_true_iff in Hok as [_ Hok]. exact Hok. }
+  rewrite (resolve_items ev allowed (al_items a) rem Hk Hitems). reflexivity.
+Qed.
